@@ -18,7 +18,7 @@ use crate::util::*;
 pub const PROP: Prop = Prop {
     id: "C05",
     level: "exploration",
-    rule: "literals generated from the grammar [#b|#o|#d|#x][+|-]0*digits (all four radixes, 64-bit boundaries 2^k, 2^k+-1, 10^k+-1 up to 2^70, random digit strings up to 400 digits, both hex cases) and [+|-]digits[.digits][(e|E)[+|-]digits] (1-400 digits, exponents in [-400,400] and absurd ones, exact halfway cases and their neighbours built with the bignum, subnormals, overflow band), plus every generated double and integer through the printer; parsed under the default options and under options with leading-digit symbols; oracle = exact rational arithmetic (M_big): exact integer in range, correctly rounded where the statement demands it, otherwise within 2^-50 relative (or one subnormal unit), out-of-range error at or above 2^1024, never inf/NaN; non-trivial = not a plain unsigned decimal of at most 9 digits; distinct by literal text and option variant",
+    rule: "(decimal literals also take their digit strings from the integer boundaries - 2^k and 10^k with small offsets, the 64-bit limits and their tenths, 2^64+d - with up to two more digits and the decimal point at every position) literals generated from the grammar [#b|#o|#d|#x][+|-]0*digits (all four radixes, 64-bit boundaries 2^k, 2^k+-1, 10^k+-1 up to 2^70, random digit strings up to 400 digits, both hex cases) and [+|-]digits[.digits][(e|E)[+|-]digits] (1-400 digits, exponents in [-400,400] and absurd ones, exact halfway cases and their neighbours built with the bignum, subnormals, overflow band), plus every generated double and integer through the printer; parsed under the default options and under options with leading-digit symbols; oracle = exact rational arithmetic (M_big): exact integer in range, correctly rounded where the statement demands it, otherwise within 2^-50 relative (or one subnormal unit), out-of-range error at or above 2^1024, never inf/NaN; non-trivial = not a plain unsigned decimal of at most 9 digits; distinct by literal text and option variant",
     assumptions: &[
         "correct rounding is demanded only when the digits fit 2^53 and |exponent| <= 22 under the written, effective and scientific reading of 'exponent' (both builds), and additionally for <= 19 significant digits in the noff build",
         "in the band where x*(1+2^-50) crosses the overflow threshold either a finite in-tolerance result or the out-of-range error is accepted",
@@ -492,6 +492,24 @@ fn mixed_case(s: String, mode: u8) -> String {
     }
 }
 
+/// Integer magnitudes around the places where an accumulator changes
+/// representation: powers of two and ten with small offsets, the 64-bit limits.
+fn g_magnitude() -> BS<Big> {
+    prop_oneof![
+        4 => (0u32..=70, -2i32..=2).prop_map(|(k, d)| {
+            let mut b = Big::pow(2, k);
+            if d >= 0 { b.add_small(d as u32); b } else { b.abs_diff(&Big::from_u64((-d) as u64)) }
+        }),
+        2 => (0u32..=21, -2i32..=2).prop_map(|(k, d)| {
+            let mut b = Big::pow(10, k);
+            if d >= 0 { b.add_small(d as u32); b } else { b.abs_diff(&Big::from_u64((-d) as u64)) }
+        }),
+        2 => prop_oneof![Just(u64::MAX), Just(i64::MAX as u64), Just(1u64 << 63), Just((1u64 << 63) + 1), Just(u64::MAX - 1), Just(u64::MAX / 10), Just(u64::MAX / 10 + 1), Just(u64::MAX / 100)].prop_map(Big::from_u64),
+        1 => (0u128..40).prop_map(|d| Big::from_u128((1u128 << 64) + d)),
+    ]
+    .boxed()
+}
+
 fn g_int_lit() -> BS<Lit> {
     let magnitude = prop_oneof![
         4 => (0u32..=70, -2i32..=2).prop_map(|(k, d)| {
@@ -613,7 +631,18 @@ fn g_dec_lit() -> BS<Lit> {
             let e = if d.len() > 100 { 0 } else { e - d.len() as i64 + 1 };
             Lit::Dec { sign, int_digits: d.to_string(), frac: None, exp: Some((false, if e < 0 { 2 } else { 0 }, e.abs().to_string())) }
         });
-    prop_oneof![6 => generic, 3 => halfway, 3 => shortest, 1 => overflow].boxed()
+    // the digit strings of the integer boundaries, with up to two more digits,
+    // cut into integer and fraction part at every position: the significand
+    // accumulator meets its limit in the middle of the fraction
+    let boundary = (g_magnitude(), prop_oneof![Just(String::new()), "[0-9]", "[0-9]{2}"], any::<u64>(), 0u8..3, g_exp()).prop_map(|(m, extra, cut_seed, sign, exp)| {
+        let s = format!("{}{}", m.to_decimal(), extra);
+        let cut = 1 + (cut_seed as usize % s.len());
+        let (i, f) = s.split_at(cut);
+        let frac = if f.is_empty() { None } else { Some(f.to_string()) };
+        let exp = if frac.is_none() && exp.is_none() { Some((false, 0u8, "0".to_string())) } else { exp };
+        Lit::Dec { sign, int_digits: i.to_string(), frac, exp }
+    });
+    prop_oneof![6 => generic, 3 => halfway, 3 => shortest, 1 => overflow, 3 => boundary].boxed()
 }
 
 pub fn g_lit() -> BS<(Lit, bool)> {
